@@ -38,7 +38,7 @@ def _sem(S):
     return SymSem() if S.mode == 'sym' else _AnySem(S.int('salt'))
 
 
-@contract(Surface.inverse, props=['C11', 'C01'], name='semantics.Surface.inverse')
+@contract(Surface.inverse, props=['C11', 'C01', 'C03'], name='semantics.Surface.inverse')
 class _SurfInv:
     def cases(S):
         yield 'plain', {'self': mk_surface(S.int('s'))}
@@ -62,7 +62,7 @@ def _operand_cases(S):
     yield 'subtree', lambda n: subtree(S, n)
 
 
-@contract(GeomExpression.inverse, props=['C11', 'C01'], name='semantics.GeomExpression.inverse')
+@contract(GeomExpression.inverse, props=['C11', 'C01', 'C03'], name='semantics.GeomExpression.inverse')
 class _GeomInv:
     """De Morgan.  Induction over the expression: the operands are either surfaces (base case, contract above) or
     opaque sub-expressions whose `inverse()` returns the induction hypothesis.
@@ -252,3 +252,33 @@ ASSUMPTIONS = {'C11': [
     'TatSu parser replaced by a stand-in for exactly the grammar of geom.ebnf (left-associative union / isect)',
     'cellcard.split (regular expressions): bounded contract only (geometry text handed over unchanged); also exercised by the deck sweeps',
 ]}
+
+
+# ------------------------------------------------------------------ extract_surfaces_list: the surfaces of a cell in card order
+
+from MIP.geom import main as _MIPMAIN
+
+_ORDER_TEXTS = [('-1 2 -3 4', [-1, 2, -3, 4]), ('(-2 1) (3 -4)', [-2, 1, 3, -4]), ('-1 (2 : -3) 4', [-1, 2, -3, 4]),
+                ('(-1 2) (-3 4) (-5 6)', [-1, 2, -3, 4, -5, 6]), ('-1 : (2 3) : -4', [-1, 2, 3, -4]),
+                ('((-1 2) -3) 4', [-1, 2, -3, 4]), ('-1 (2 (-3 4))', [-1, 2, -3, 4]), ('-10.2 (3 : 7.1) #9 -4', [-10, 3, 7, -4]),
+                ('-7', [-7]), ('-301 302 305 -303 -304 306', [-301, 302, 305, -303, -304, 306]),
+                ('(-301 302) (305 -303) (-304 306) -7 8', [-301, 302, 305, -303, -304, 306, -7, 8])]
+
+
+@contract(_MIPMAIN.extract_surfaces_list, props=['C06', 'C07', 'C04', 'C11'], name='main.extract_surfaces_list', status='B')
+class _SurfOrder:
+    """The surfaces of a cell expression are listed in the order of the card, left to right, whatever the grouping
+    by parentheses (the order decides the index directions of a lattice); `#n` contributes nothing."""
+    scope = '11 expressions (flat, grouped pairs, nested either way, unions, facets, complements of cells)'
+
+    def bounded(tier):
+        for text, want in _ORDER_TEXTS:
+            yield {'text': text, 'want': want}
+
+    def call(text, want):
+        from harness import shim
+        shim.install()
+        return [int(x) for x in _MIPMAIN.extract_surfaces_list(PG.get_ast(text))]
+
+    def ensures(result, text, want):
+        yield 'card-order', result == want
